@@ -47,7 +47,7 @@ fn rid_of(row: &str) -> Option<i64> {
     rest[..end].parse().ok()
 }
 
-fn shift_leases(world: &CWorld, secs: i64) {
+pub fn shift_leases(world: &CWorld, secs: i64) {
     if world.s3 {
         if let Some(p) = world.core.find_path("compaction-leases.json") {
             world.core.surgery(&p, |b| {
